@@ -36,7 +36,7 @@ func runC01(opt *Options) int {
 	violations := 0
 	knownHits := map[string]int{}
 	replayBase := filepath.Join(layera.Root(), "replays", "C01")
-	os.RemoveAll(replayBase)
+	clearReplaysOnce("C01")
 	gateChecked := 0
 	var gateSamples []interface{}
 	if res.Fatal != "" {
@@ -106,6 +106,9 @@ func runC01(opt *Options) int {
 	}
 	rc := la.finish(lares, gate)
 	// patch the evidence with the gate's violations
+	if violations > 0 && os.Getenv("VERIF_NO_EVIDENCE") != "" {
+		return 1
+	}
 	if violations > 0 {
 		evp := filepath.Join(layera.Root(), "evidence", "C01.json")
 		if b, err := os.ReadFile(evp); err == nil {
